@@ -144,8 +144,10 @@ struct VData : Profile {
                     p.ops.push_back(mkop(c, names[k], {sl, v, r.chance(0.45) ? 1 : 0}));
                     break;
                 case 2:
-                case 5:
                     p.ops.push_back(mkop(c, names[k], {sl}));
+                    break;
+                case 5: // second argument 1: first ask for the other interlace (refused once records exist; nothing may change)
+                    p.ops.push_back(mkop(c, names[k], {sl, r.chance(0.4) ? 1 : 0}));
                     break;
                 case 3: // write: position fraction (1000 = append at end), count, data, buffer interlace
                     p.ops.push_back(mkop(c, names[k], {sl, r.chance(0.4) ? 1000 : (int64_t)r.below(1000), 1 + r.sizeish(maxrec),
@@ -534,8 +536,20 @@ struct VData : Profile {
                 Slot &sl = s.sl[c][modn(o.arg(0), NSLOT)];
                 if (!sl.live)
                     done = false;
-                else
+                else {
+                    MTable &t = s.t[sl.v];
+                    if (o.arg(1) == 1 && sl.wr && t.nrec() > 0) {
+                        // the interlace of a Vdata that holds records cannot be changed: the call is refused and leaves
+                        // the Vdata as it was (the checks below and every later read see the old interlace)
+                        int32 other = t.stored_il == FULL_INTERLACE ? NO_INTERLACE : FULL_INTERLACE;
+                        if (VSsetinterlace(sl.vkey, other) != FAIL)
+                            ctx.fail("accepted", "accepted:setinterlace-after-write",
+                                     strf("vd%d: VSsetinterlace(%d) on a Vdata that holds %d records returned success", sl.v, (int)other, (int)t.nrec()));
+                        ctx.probe("interlace-change-refused");
+                        ctx.st.checks++;
+                    }
                     check_inquire(s, sl.v, sl.vkey, "in session");
+                }
             }
             else if (k == "fpack") {
                 Slot &sl = s.sl[c][modn(o.arg(0), NSLOT)];
